@@ -12,9 +12,9 @@
 (*   decode_to_utf8 / decode_to_utf16   lib.rs      (replacement wrapper)  *)
 (*   ascii_compatible_two_byte_decoder_function!    (Big5, EUC-KR, SJIS)   *)
 (*   SingleByteDecoder::decode_to_utf8_raw / _utf16_raw                    *)
-(*   UserDefinedDecoder, ReplacementDecoder, Iso2022JpDecoder              *)
+(*   UserDefinedDecoder, ReplacementDecoder, Iso2022JpDecoder, Utf8Decoder *)
 (*   Handles: check_space_bmp/astral, copy_ascii_from_check_space_*        *)
-(* Variants not yet transcribed (UTF-8, UTF-16, gb18030, EUC-JP) use the   *)
+(* Variants not yet transcribed (UTF-16, gb18030, EUC-JP) use the          *)
 (* generic decoder_function! shape driven by Layer S ("abstract variant"): *)
 (* contract-conformant, but not expected to predict the real code's exact  *)
 (* stopping points.                                                        *)
@@ -217,9 +217,58 @@ IsoRaw(v, c) ==
   ELSE IsoLoop(v, c)
 
 (***************************************************************************)
+(* Utf8Decoder: decoder_functions! with loop_preamble = the validating     *)
+(* fast path (copy_utf8_up_to_invalid_from) whenever no sequence is in     *)
+(* progress, destination_check = check_space_astral, eof = Malformed for a *)
+(* pending sequence (no space check: the byte read last had four free      *)
+(* bytes and wrote nothing).  The body is the Standard's UTF-8 state       *)
+(* machine; v.st is its state (b = bytes_seen, c = bytes_needed).          *)
+(***************************************************************************)
+RECURSIVE TakeChars16(_, _, _, _)
+\* greedy: scalars (with their UTF-8 lengths) converted to UTF-16 while the units fit; returns [n, bytes, units]
+TakeChars16(cps, j, room, acc) ==
+  IF j > Len(cps) THEN acc
+  ELSE LET u == Utf16Len(cps[j]) IN
+    IF acc.units + u > room THEN acc
+    ELSE TakeChars16(cps, j + 1, room, [n |-> acc.n + 1, bytes |-> acc.bytes + Utf8Len(cps[j]), units |-> acc.units + u])
+
+Utf8FastCopy(c) ==
+  LET srcRem == Len(c.src) - c.pos
+      dstRem == c.cap - c.w
+  IN
+  IF U8(c.sink) THEN
+    \* Utf8Destination: validate the first min(src, dst) bytes, memcpy the valid prefix
+    LET minLen == IF srcRem < dstRem THEN srcRem ELSE dstRem
+        validLen == Utf8ValidUpTo(SubSeq(c.src, c.pos + 1, c.pos + minLen))
+        cps == Utf8ToScalars(SubSeq(c.src, c.pos + 1, c.pos + validLen)).cps
+    IN  [c EXCEPT !.pos = @ + validLen, !.w = @ + validLen, !.out = @ \o cps]
+  ELSE
+    \* Utf16Destination: convert_utf8_to_utf16_up_to_invalid - whole valid characters while they fit
+    LET validLen == Utf8ValidUpTo(SubSeq(c.src, c.pos + 1, Len(c.src)))
+        cps == Utf8ToScalars(SubSeq(c.src, c.pos + 1, c.pos + validLen)).cps
+        t == TakeChars16(cps, 1, dstRem, [n |-> 0, bytes |-> 0, units |-> 0])
+    IN  [c EXCEPT !.pos = @ + t.bytes, !.w = @ + t.units, !.out = @ \o SubSeq(cps, 1, t.n)]
+
+RECURSIVE Utf8Loop(_, _)
+Utf8Loop(v, c0) ==
+  LET c == IF v.st.c = 0 THEN Utf8FastCopy(c0) ELSE c0 IN
+  IF SrcEmpty(c) THEN
+    IF c.last /\ v.st.c # 0 THEN Ret([v EXCEPT !.st = Utf8Init], "M", v.st.b + 1, 0, c)
+    ELSE Ret(v, "I", 0, 0, c)
+  ELSE IF ~SpaceAstral(c) THEN Ret(v, "O", 0, 0, c)
+  ELSE
+    LET b == Peek(c)
+        c1 == Adv(c, 1)
+        r == Utf8H(v.st, b)
+    IN  IF r.err THEN
+          (IF r.restore # <<>> THEN Ret([v EXCEPT !.st = r.st], "M", v.st.b + 1, 0, c)      \* unread()
+           ELSE Ret([v EXCEPT !.st = r.st], "M", 1, 0, c1))
+        ELSE Utf8Loop([v EXCEPT !.st = r.st], Wr(c1, r.emit))
+
+(***************************************************************************)
 (* VariantDecoder dispatch                                                 *)
 (***************************************************************************)
-ExactVariant(enc) == Family(enc) \in {"big5", "euckr", "sjis", "sb", "userdef", "repl", "iso2022jp"}
+ExactVariant(enc) == Family(enc) \in {"big5", "euckr", "sjis", "sb", "userdef", "repl", "iso2022jp", "utf8"}
 
 Raw(enc, v, src, cap, last, sink) ==
   LET c == NewCtx(src, cap, last, sink)
@@ -229,7 +278,8 @@ Raw(enc, v, src, cap, last, sink) ==
         [] f = "userdef" -> IF U8(sink) THEN UserDefinedRaw8(c) ELSE OneToOne16(enc, c)
         [] f = "repl" -> ReplacementRaw(v, c)
         [] f = "iso2022jp" -> IsoRaw(v, c)
-        [] f \in {"utf8", "gb"} -> DFGeneric(enc, "astral", v, c)
+        [] f = "utf8" -> Utf8Loop(v, c)
+        [] f = "gb" -> DFGeneric(enc, "astral", v, c)
         [] OTHER -> DFGeneric(enc, IF f \in {"utf16be", "utf16le"} THEN "astral" ELSE "bmp", v, c)
 
 (***************************************************************************)
